@@ -32,6 +32,14 @@ def seq_of(E, v, st):
             for p in parts[1:]:
                 t = Q.Concat(t, E.coerce(p, ty, st).t)
             return SVal(t, ty)
+        if v.kind == "chain*":
+            inner = seq_of(E, v.args[0], st)
+            if not isinstance(inner.ty.elem, TList):
+                raise OutsideSubset("chain(*xs) over non-lists")
+            ety = inner.ty.elem.elem
+            f = E.uf("flatten_" + _m(inner.ty.key), [E.U.sort(inner.ty)], Q.list_sort(E.U.sort(ety)))
+            E.assumptions.add("itertools.chain(*xs): uninterpreted flattening of a list of lists (no membership axiom)")
+            return SVal(f(inner.t), TList(ety))
         raise OutsideSubset(f"sequence view of {v.kind}")
     if isinstance(v, STuple):
         items = [_mat(E, i, st) for i in v.items]
@@ -564,7 +572,12 @@ def s_typed_empty(E, args, kw, st, node):
     yield st, E.empty_of(E.U.parse(t.t.as_string()))
 
 
-SPEC_FORMS = {"implies": s_implies, "iff": s_iff, "ANY": s_any, "store": s_store, "ite": s_ite, "distinct": s_distinct,
+def s_exc_code(E, args, kw, st, node):
+    f = E.uf("exc_code", [E.U.Exc], z3.IntSort())
+    yield st, SVal(f(args[0].t), INT)
+
+
+SPEC_FORMS = {"exc_code": s_exc_code, "implies": s_implies, "iff": s_iff, "ANY": s_any, "store": s_store, "ite": s_ite, "distinct": s_distinct,
               "none": s_none, "dom": s_dom, "lookup": s_lookup, "subset": s_subset, "typed_empty": s_typed_empty}
 
 
